@@ -35,6 +35,9 @@ def routing_families(prop, tier, seed, mc):
         for n in names:
             if n not in r['reg'] and rnd.random() < 0.5:
                 plan.insert(rnd.randint(0, len(plan)), {'name': n, 'how': 'none'})
+        if rnd.random() < 0.3:      # the first k registered services arrive as a prepared Routes value through Server::add_routes
+            k = rnd.randint(1, len(r['reg']))
+            plan = [{'name': '', 'how': 'routes', 'names': r['reg'][:k]}] + [st for st in plan if st['name'] not in r['reg'][:k]]
         plans.append({'class': 'server_plan', 'reg': r['reg'], 'plan': plan, 'path': r['path'], 'via': 'server'})
     return [('routing_table', stims), ('server_plans', plans)]
 
